@@ -10,15 +10,17 @@
    [ord n l] the iteration order of a HashMap/HashSet.  Where needed the hypotheses are
    "rnd is injective" (no key is drawn twice) and "ord n l is a permutation of l".
 
-   Of the nine commands implemented by a script.ds, eight are translated by hand into compositions
-   of the native models (CollectionsScripts.v) and proved against the specification
+   All nine commands implemented by a script.ds are translated by hand into compositions of the
+   native models (CollectionsScripts.v, CollectionsJoin.v) and proved against the specification
    (C12_refines_script, C12_refines_array_contains, C12_refines_set_from_array,
-   C12_refines_array_concat, C12_refines_map_contains_value); the translation itself, like the
-   native models, is tied to the code by the correspondence run.  array_join is specified (spec)
-   but tied to the code by the correspondence run only (partial). *)
+   C12_refines_array_concat, C12_refines_map_contains_value, C12_refines_array_join — the last one
+   on the arguments outside the F7 classes, with C12_array_join_F7_refuted for the rest); the
+   translations, like the native models, are tied to the code by the correspondence run. *)
 From stdpp Require Import gmap list.
 From Coq Require Import NArith ZArith.
 Require Import DS.Collections DS.CollectionsScripts DS.CollectionsSpec DS.CollectionsTables DS.CollectionsProof.
+Require Import DS.CollectionsJoin DS.CollectionsJoinProof.
+Require DS.Utf8 DS.Strings DS.Expansion DS.EvalSer.
 Require DSG.GenCollections.
 
 (* the table regenerated from the source (directory, aliases, script-or-native, minimal argument
@@ -77,6 +79,37 @@ Theorem C12_refines_map_contains_value : forall rnd ord args s,
              = Done ((step_s rnd ord CMapContainsValue args s).1, s') /\
              hs s' = hs s /\ stale s' = stale s.
 Proof. exact rs_map_contains_value. Qed.
+(* array_join, translated with the models of C09 (what `if not <cmd> <arg>` hands to <cmd>:
+   EvalSer.eval_call, twice) and C16 (strlen, calc, substring in bytes): for every variable
+   environment, when both arguments are in none of the classes of finding F7 (ok_arg = safe, not E,
+   not W) and the text built by the loop is below 2^53 bytes (where `calc` is exact), the script
+   answers exactly the plain join — multi-byte and empty items and separators included: the
+   trailing separator is cut at a byte offset that is a character boundary, and `substring`'s
+   end <= len - 1 test holds because the separator is not empty *)
+Theorem C12_refines_array_join : forall rnd ord e a1 a2 rest s,
+  ok_arg a1 = true -> ok_arg a2 = true ->
+  (forall l, look_list (hs s) a1 = Found l ->
+     (Z.of_N (DS.Utf8.blen (with_trailing a2 (elem_str <$> l))) <= DS.Strings.two53)%Z) ->
+  script_array_join e (a1 :: a2 :: rest) s
+  = Some (Done (step_s rnd ord CArrayJoin (a1 :: a2 :: rest) s)).
+Proof. exact rs_array_join. Qed.
+(* outside that domain the literal statement is false (known finding F7): separators `#` (class H)
+   and QUOTE SPACE x (class Q) keep a trailing separator *)
+Theorem C12_array_join_F7_refuted :
+  DS.EvalSer.cls_H [35%N] = true /\ ok_arg [35%N] = false /\
+  jout (script_array_join DS.Expansion.env_empty [jh; [35%N]] jst) = Some (Cont (Some [97; 35; 98; 35]%N)) /\
+  (step_s rnd0 ord0 CArrayJoin [jh; [35%N]] jst).1 = Cont (Some [97; 35; 98]%N) /\
+  DS.EvalSer.cls_Q [34; 32; 120]%N = true /\
+  jout (script_array_join DS.Expansion.env_empty [jh; [34; 32; 120]%N] jst)
+    = Some (Cont (Some [97; 34; 32; 120; 98; 34; 32; 120]%N)).
+Proof. exact array_join_F7_refuted. Qed.
+(* non-vacuity inside the domain: items é, "", -7 (a range item), U+1F600 joined with "€ " *)
+Theorem C12_array_join_example :
+  let st := MS (<[jh := HList [EStr [233%N]; EStr []; ENum (-7); EStr [128512%N]]]> ∅) 1 None in
+  ok_arg jh = true /\ ok_arg [8364%N; 32%N] = true /\
+  jout (script_array_join DS.Expansion.env_empty [jh; [8364%N; 32%N]] st)
+  = Some (Cont (Some [233; 8364; 32; 8364; 32; 45; 55; 8364; 32; 128512]%N)).
+Proof. exact array_join_example. Qed.
 Theorem C12_no_empty_handle : forall rnd ord s,
   (forall i, rnd i <> []) -> reachable rnd ord s -> hs s !! ([] : str) = None.
 Proof. exact reachable_no_empty. Qed.
